@@ -198,6 +198,8 @@ def proj_field(t, name):
             if f == name:
                 return x
         return ('field', t, name)
+    if k == 'closure' and str(name).isdigit() and int(name) < len(t[2]):
+        return t[2][int(name)][1]          # captured value i of a closure value (seen when a closure call has been inlined)
     if k == 'tuple':
         try:
             return t[1][int(name)]
